@@ -98,7 +98,13 @@ def run(cp: ctarget.Compiled, bp: Any, inputs: dict[str, Any], tag: str = "k",
     with open(base + ".in", "wb") as fh:
         fh.write(bytes(blob))
     res = AsanResult()
-    r = subprocess.run(["clang", "-fsanitize=address,undefined", "-fno-sanitize-recover=all",
+    # signed-integer-overflow / shift / float-cast checks observe the VALUES a program
+    # computes (an int32 product that wraps in NumPy too), not memory safety: excluded.
+    # An overflowing index computation still shows up as an out-of-bounds access.
+    r = subprocess.run(["clang", "-fsanitize=address,undefined",
+                        "-fno-sanitize=signed-integer-overflow,shift,float-cast-overflow,"
+                        "float-divide-by-zero,integer-divide-by-zero",
+                        "-fno-sanitize-recover=all",
                         "-O1", "-g", "-w", "-ffp-contract=off", "-o", base + ".exe",
                         base + ".c", "-lm"], capture_output=True, text=True)
     if r.returncode != 0:
